@@ -446,7 +446,7 @@ def scenario_records(ctx, k, workdir):
         orders = [('reversed', lambda q: q[::-1])] + ([('rotated', lambda q: q[1:] + q[:1])] if P >= 3 else [])
         for oname, reorder in orders:
             pop_ids = list(pops) if rng.random() < 0.5 else rng.sample(pops, P)
-            ks = [rng.randint(1, scn['ninds'][pops.index(p)]) for p in pop_ids]
+            ks = [rng.randint(1, max(1, (scn['ninds'][pops.index(p)] + 1) // 2)) for p in pop_ids]
             for attempt in range(20):
                 if len(set(ks)) == len(ks) or all(scn['ninds'][pops.index(p)] == 1 for p in pop_ids):
                     break
@@ -478,6 +478,8 @@ def scenario_records(ctx, k, workdir):
             site = 'Misc.bootstraps_subsample_vcf'
             proj = [2 * int(sub[p]) for p in pop_ids]
             call = {'sub_order': list(sub), 'order': oname, 'cs': int(cs)}
+            if res is None and made and not made[-1]:
+                continue        # the subsample left no SNP: no chunk to draw from, nothing is stated about bootstraps of an empty genome
             if res is None or len(made) != len(res) or len(drawn) != len(res):
                 add('boot', site, dict({'vcf': A, 'filter': sfilt}, pops=list(pop_ids), proj=proj, pol=pol, mask_corners=mc, chunks=[], drawn=[[], []],
                                        bseed=bseed, call=call), out if res is None else {'raised': 'driver: %d dictionaries, %d draws for %d replicates' % (len(made), len(drawn), len(res))})
